@@ -612,4 +612,318 @@ theorem qord_pop (q q' : Q Rat) (p : CT Rat) (hq : QOrd q) (h : q.pop = some (p,
                 Rat.mul_le_mul_of_nonneg_right h1r (Rat.le_of_lt hw)
               grind
 
+/-! ### `update` -/
+
+theorem off_unique (k tr i o : Nat) (htr : tr < k) (ho : o < k) (h : (tr + o) % k = i) : off k tr i = o := by
+  unfold off
+  by_cases h1 : tr + o < k
+  · have hi : i = tr + o := by rw [← h, Nat.mod_eq_of_lt h1]
+    have : i + k - tr = o + k := by omega
+    rw [this, Nat.add_mod_right, Nat.mod_eq_of_lt ho]
+  · have hi : i = tr + o - k := by
+      rw [← h, Nat.mod_eq_sub_mod (by omega), Nat.mod_eq_of_lt (by omega)]
+    have : i + k - tr = o := by omega
+    rw [this, Nat.mod_eq_of_lt ho]
+
+theorem off_lt (k tr i : Nat) (hk : 0 < k) : off k tr i < k := Nat.mod_lt _ hk
+
+theorem off_inv (k tr i : Nat) (hi : i < k) (htr : tr < k) : (tr + off k tr i) % k = i := by
+  by_cases h1 : tr ≤ i
+  · have ho : off k tr i = i - tr := by
+      unfold off
+      have : i + k - tr = (i - tr) + k := by omega
+      rw [this, Nat.add_mod_right, Nat.mod_eq_of_lt (by omega)]
+    rw [ho]
+    have : tr + (i - tr) = i := by omega
+    rw [this, Nat.mod_eq_of_lt hi]
+  · have ho : off k tr i = i + k - tr := by
+      unfold off
+      rw [Nat.mod_eq_of_lt (by omega)]
+    rw [ho]
+    have : tr + (i + k - tr) = i + k := by omega
+    rw [this, Nat.add_mod_right, Nat.mod_eq_of_lt hi]
+
+theorem off_shift (k tr i d : Nat) (hi : i < k) (htr : tr < k) (hd : d ≤ off k tr i) (hk : 0 < k) :
+    off k ((tr + d) % k) i = off k tr i - d := by
+  apply off_unique k _ i _ (Nat.mod_lt _ hk) (by have := off_lt k tr i hk; omega)
+  rw [Nat.mod_add_mod]
+  have : tr + d + (off k tr i - d) = tr + off k tr i := by omega
+  rw [this]
+  exact off_inv k tr i hi htr
+
+/-- the `while` loop of `update` skips `d` cells whose counter is 0 and stops at a cell whose counter is not -/
+theorem advance_spec' {α : Type} (cells : List (Cell α)) (k : Nat) : ∀ (f tr n tr' n' : Nat), tr < k →
+    advance cells k f tr n = some (tr', n') →
+    ∃ d, n' = n + d ∧ tr' = (tr + d) % k ∧
+      (∀ d', d' < d → ∃ c, cells[(tr + d') % k]? = some c ∧ c.count = 0) ∧
+      ∃ c, cells[tr']? = some c ∧ c.count ≠ 0 := by
+  intro f
+  induction f with
+  | zero => intro tr n tr' n' _ h; simp [advance] at h
+  | succ f ih =>
+    intro tr n tr' n' htr h
+    have hk : 0 < k := by omega
+    simp only [advance] at h
+    split at h
+    · simp at h
+    · rename_i c hc
+      split at h
+      · rename_i hz
+        obtain ⟨d, h1, h2, h3, h4⟩ := ih _ _ _ _ (Nat.mod_lt _ hk) h
+        refine ⟨d + 1, by omega, ?_, ?_, h4⟩
+        · rw [h2, Nat.mod_add_mod]; congr 1; omega
+        · intro d' hd'
+          cases d' with
+          | zero => exact ⟨c, by simpa [Nat.mod_eq_of_lt htr] using hc, hz⟩
+          | succ d'' =>
+            obtain ⟨c2, hc2, hz2⟩ := h3 d'' (by omega)
+            refine ⟨c2, ?_, hz2⟩
+            rw [Nat.mod_add_mod] at hc2
+            have : tr + 1 + d'' = tr + (d'' + 1) := by omega
+            rwa [this] at hc2
+      · rename_i hz
+        simp only [Option.some.injEq, Prod.mk.injEq] at h
+        obtain ⟨h1, h2⟩ := h
+        subst h1; subst h2
+        exact ⟨0, rfl, by simp [Nat.mod_eq_of_lt htr], by intro d' hd'; omega, c, hc, hz⟩
+
+theorem advance_lt {α : Type} (cells : List (Cell α)) (k d tr : Nat) (hk : 0 < k)
+    (h3 : ∀ d', d' < d → ∃ c, cells[(tr + d') % k]? = some c ∧ c.count = 0)
+    (h4 : ∃ c, cells[(tr + d) % k]? = some c ∧ c.count ≠ 0) : d < k := by
+  rcases Nat.lt_or_ge d k with h | h
+  · exact h
+  · exfalso
+    obtain ⟨c, hc, hz⟩ := h3 (d - k) (by omega)
+    obtain ⟨c', hc', hz'⟩ := h4
+    have : (tr + (d - k)) % k = (tr + d) % k := by
+      have : tr + d = tr + (d - k) + k := by omega
+      rw [this, Nat.add_mod_right]
+    rw [this, hc'] at hc
+    simp only [Option.some.injEq] at hc
+    subst hc; exact hz' hz
+
+theorem tuples_len_le {α : Type} {cells : List (Cell α)} {j : Nat} {d : Cell α} (h : cells[j]? = some d) :
+    d.tuples.length ≤ (tuplesList cells).length := by
+  obtain ⟨A, B, hx, _⟩ := tuplesList_split h d
+  rw [hx]; simp; omega
+
+theorem tuples_two {α : Type} : ∀ (cells : List (Cell α)) (i j : Nat) (c d : Cell α), i ≠ j → cells[i]? = some c →
+    cells[j]? = some d → c.tuples.length + d.tuples.length ≤ (tuplesList cells).length
+  | [], i, _, _, _, _, h, _ => by simp at h
+  | x :: xs, 0, 0, _, _, hne, _, _ => absurd rfl hne
+  | x :: xs, 0, j + 1, c, d, _, hc, hd => by
+    simp only [List.getElem?_cons_zero, Option.some.injEq] at hc
+    subst hc
+    have := tuples_len_le (cells := xs) (by simpa using hd)
+    rw [tuplesList_cons]; simp; omega
+  | x :: xs, i + 1, 0, c, d, _, hc, hd => by
+    simp only [List.getElem?_cons_zero, Option.some.injEq] at hd
+    subst hd
+    have := tuples_len_le (cells := xs) (by simpa using hc)
+    rw [tuplesList_cons]; simp; omega
+  | x :: xs, i + 1, j + 1, c, d, hne, hc, hd => by
+    have := tuples_two xs i j c d (by omega) (by simpa using hc) (by simpa using hd)
+    rw [tuplesList_cons]; simp; omega
+
+/-- **`update` keeps the invariant and the content**, and leaves `translation` on a non-empty cell -/
+theorem qord_update (b : Bool) (q q' : Q Rat) (hq : QOrd q) (h : q.update (ratA b) = some q') :
+    QOrd q' ∧ q'.cells = q.cells ∧ q'.nelements = q.nelements ∧
+    (q.nelements ≠ 0 → ∃ c, q'.cells[q'.translation]? = some c ∧ c.tuples ≠ []) := by
+  have hk := hq.wf.kpos
+  have hkr := natCast_pos hk
+  have hw : 0 < q.maxi / (q.k : Rat) := by
+    rw [Rat.div_def]; exact Rat.mul_pos hq.maxi_pos (Rat.inv_pos.mpr hkr)
+  unfold Q.update at h
+  split at h
+  · rename_i h0
+    simp only [Option.some.injEq] at h
+    subst h
+    exact ⟨hq, rfl, rfl, fun hne => absurd h0 hne⟩
+  · rename_i hne
+    split at h
+    · simp at h
+    · rename_i tr' n' hadv
+      obtain ⟨d, hn', htr', hempty, c0, hc0, hcount⟩ := advance_spec' q.cells q.k _ _ _ _ _ hq.tr hadv
+      have hdk : d < q.k := advance_lt q.cells q.k d q.translation hk hempty ⟨c0, by rw [← htr']; exact hc0, hcount⟩
+      have htrk : tr' < q.k := by rw [htr']; exact Nat.mod_lt _ hk
+      have hne0 : c0.tuples ≠ [] := by
+        intro h0
+        have := wf_no_tuples (hq.wf.cells c0 (List.mem_of_getElem? hc0)) h0
+        subst this; simp [Cell.count] at hcount
+      split at h
+      · -- a single element: re-anchor the grid at its cost
+        rename_i h1
+        split at h
+        · rename_i ct hleaf
+          simp only [Option.some.injEq] at h
+          subst h
+          have hlen : (tuplesList q.cells).length = 1 := by
+            have := hq.wf.count; simp only [Q.tuples] at this; omega
+          refine ⟨⟨⟨hq.wf.cells, hq.wf.count, hq.wf.len, hk⟩, hq.maxi_pos, htrk, by simp, ?_, ?_⟩, rfl, rfl,
+            fun _ => ⟨_, hleaf, by simp [tuples_leaf]⟩⟩
+          · intro mini hmini
+            simp only [Option.some.injEq] at hmini
+            subst hmini
+            refine ⟨hq.wf.len, ?_⟩
+            intro i c hi
+            by_cases hit : i = tr'
+            · subst hit
+              rw [hleaf] at hi
+              simp only [Option.some.injEq] at hi
+              subst hi
+              rw [off_self _ _ htrk]
+              exact .leaf _ _ _ (by grind) (by grind)
+            · have := tuples_two q.cells i tr' c (.leaf ct) hit hi hleaf
+              rw [hlen, tuples_leaf] at this
+              have h0 : c.tuples = [] := by
+                cases hct : c.tuples with
+                | nil => rfl
+                | cons x xs => rw [hct] at this; simp at this
+              rw [wf_no_tuples (hq.wf.cells c (List.mem_of_getElem? hi)) h0]
+              exact .empty _ _
+          · intro mini hmini
+            simp only [Option.some.injEq] at hmini
+            subst hmini
+            refine ⟨ct.cost, rfl, ?_⟩
+            show ct.cost = ct.cost + q.maxi * ((0 : Nat) : Rat) / (q.k : Rat)
+            grind
+        · simp at h
+      · -- several elements: slide the window by `d` buckets
+        split at h
+        · simp at h
+        · rename_i st hst
+          simp only [Option.some.injEq] at h
+          subst h
+          have hcase : (∃ m, q.mini = some m) ∨ q.mini = none := by cases q.mini <;> simp
+          rcases hcase with ⟨m, hm⟩ | hm
+          rotate_left
+          · exfalso
+            have := hq.none_empty hm c0 (List.mem_of_getElem? hc0)
+            subst this; simp [Cell.count] at hcount
+          · obtain ⟨st', hst', hrel⟩ := hq.rel m hm
+            rw [hst] at hst'
+            simp only [Option.some.injEq] at hst'
+            subst hst'
+            have hpl := hq.placed m hm
+            have hnew : (ratA b).add st ((ratA b).div ((ratA b).mul q.maxi ((ratA b).ofNat n')) ((ratA b).ofNat q.k)) =
+                m + (d : Rat) * (q.maxi / (q.k : Rat)) := by
+              show st + q.maxi * (((n' : Nat) : Int) : Rat) / (((q.k : Nat) : Int) : Rat) = _
+              have e1 : (((n' : Nat) : Int) : Rat) = (q.n : Rat) + (d : Rat) := by
+                rw [hn']; show ((q.n + d : Nat) : Rat) = _; grind
+              have e2 : (((q.k : Nat) : Int) : Rat) = (q.k : Rat) := rfl
+              rw [e1, e2, hrel]
+              have : (q.k : Rat) ≠ 0 := by grind
+              grind
+            refine ⟨⟨⟨hq.wf.cells, hq.wf.count, hq.wf.len, hk⟩, hq.maxi_pos, htrk, by simp, ?_, ?_⟩, rfl, rfl,
+              fun _ => ⟨c0, hc0, hne0⟩⟩
+            · intro mini hmini
+              simp only [Option.some.injEq] at hmini
+              subst hmini
+              rw [hnew]
+              refine ⟨hq.wf.len, ?_⟩
+              intro i c hi
+              have hik : i < q.k := by
+                have := (List.getElem?_eq_some_iff.mp hi).1
+                rw [hq.wf.len] at this; exact this
+              have hold := hpl.2 i c hi
+              by_cases ho : off q.k q.translation i < d
+              · obtain ⟨c2, hc2, hz2⟩ := hempty _ ho
+                rw [off_inv _ _ _ hik hq.tr, hi] at hc2
+                simp only [Option.some.injEq] at hc2
+                subst hc2
+                rw [wf_count_zero (hq.wf.cells c (List.mem_of_getElem? hi)) hz2]
+                exact .empty _ _
+              · have hsh := off_shift q.k q.translation i d hik hq.tr (by omega) hk
+                rw [htr', hsh]
+                have e : m + (d : Rat) * (q.maxi / (q.k : Rat)) + ((off q.k q.translation i - d : Nat) : Rat) * (q.maxi / (q.k : Rat))
+                    = m + (off q.k q.translation i : Rat) * (q.maxi / (q.k : Rat)) := by
+                  have : ((off q.k q.translation i - d : Nat) : Rat) = (off q.k q.translation i : Rat) - (d : Rat) := by
+                    have h1 : off q.k q.translation i = (off q.k q.translation i - d) + d := by omega
+                    have h2 : ((off q.k q.translation i : Nat) : Rat) = (((off q.k q.translation i - d) + d : Nat) : Rat) := by rw [← h1]
+                    grind
+                  rw [this]; grind
+                rw [e]; exact hold
+            · intro mini hmini
+              simp only [Option.some.injEq] at hmini
+              subst hmini
+              exact ⟨st, hst, rfl⟩
+
+theorem advance_total {α : Type} (cells : List (Cell α)) (k : Nat) (hl : cells.length = k) : ∀ (f tr n o : Nat), tr < k → o < f →
+    (∃ c, cells[(tr + o) % k]? = some c ∧ c.count ≠ 0) → ∃ r, advance cells k f tr n = some r := by
+  intro f
+  induction f with
+  | zero => intro tr n o _ ho; omega
+  | succ f ih =>
+    intro tr n o htr ho hc
+    have hk : 0 < k := by omega
+    simp only [advance]
+    have : ∃ c, cells[tr]? = some c := ⟨cells[tr]'(by omega), List.getElem?_eq_getElem (by omega)⟩
+    obtain ⟨c, hget⟩ := this
+    rw [hget]
+    simp only
+    split
+    · rename_i hz
+      cases o with
+      | zero =>
+        obtain ⟨c', hc', hz'⟩ := hc
+        simp only [Nat.add_zero, Nat.mod_eq_of_lt htr] at hc'
+        rw [hget] at hc'
+        simp only [Option.some.injEq] at hc'
+        subst hc'; exact absurd hz hz'
+      | succ o' =>
+        apply ih _ _ o' (Nat.mod_lt _ hk) (by omega)
+        obtain ⟨c', hc', hz'⟩ := hc
+        refine ⟨c', ?_, hz'⟩
+        rw [Nat.mod_add_mod]
+        have : tr + 1 + o' = tr + (o' + 1) := by omega
+        rwa [this]
+    · exact ⟨_, rfl⟩
+
+/-- **`update` succeeds** on every non-empty queue satisfying the invariant -/
+theorem qord_update_total (b : Bool) (q : Q Rat) (hq : QOrd q) : ∃ q', q.update (ratA b) = some q' := by
+  have hk := hq.wf.kpos
+  unfold Q.update
+  split
+  · exact ⟨_, rfl⟩
+  · rename_i hne
+    -- some cell holds something
+    have hlen : (tuplesList q.cells).length ≠ 0 := by
+      have := hq.wf.count; simp only [Q.tuples] at this; omega
+    have : ∃ t, t ∈ tuplesList q.cells := by
+      cases hts : tuplesList q.cells with
+      | nil => rw [hts] at hlen; simp at hlen
+      | cons x xs => exact ⟨x, List.mem_cons_self⟩
+    obtain ⟨t, ht⟩ := this
+    obtain ⟨j, c, hj, htc⟩ := mem_tuplesList.mp ht
+    have hjk : j < q.k := by
+      have := (List.getElem?_eq_some_iff.mp hj).1
+      rw [hq.wf.len] at this; exact this
+    have hcnt : c.count ≠ 0 := by
+      intro h0
+      have := wf_count_zero (hq.wf.cells c (List.mem_of_getElem? hj)) h0
+      subst this; simp [tuples_empty] at htc
+    obtain ⟨⟨tr', n'⟩, hadv⟩ := advance_total q.cells q.k hq.wf.len (q.k + 1) q.translation q.n (off q.k q.translation j) hq.tr
+      (by have := off_lt q.k q.translation j hk; omega) ⟨c, by rw [off_inv _ _ _ hjk hq.tr]; exact hj, hcnt⟩
+    rw [hadv]
+    simp only
+    obtain ⟨d, _, _, _, c0, hc0, hcount⟩ := advance_spec' q.cells q.k _ _ _ _ _ hq.tr hadv
+    split
+    · rename_i h1
+      -- the only CostTuple is a leaf
+      have hwc := hq.wf.cells c0 (List.mem_of_getElem? hc0)
+      have hle := tuples_len_le hc0
+      have hlen1 : (tuplesList q.cells).length = 1 := by
+        have := hq.wf.count; simp only [Q.tuples] at this; omega
+      cases hwc with
+      | empty => simp [Cell.count] at hcount
+      | leaf ct => rw [hc0]; exact ⟨_, rfl⟩
+      | node n sub _ hn h2 => rw [tuples_node] at hle; omega
+    · have hcase : (∃ m, q.mini = some m) ∨ q.mini = none := by cases q.mini <;> simp
+      rcases hcase with ⟨m, hm⟩ | hm
+      · obtain ⟨st, hst, _⟩ := hq.rel m hm
+        rw [hst]; exact ⟨_, rfl⟩
+      · exfalso
+        have := hq.none_empty hm c0 (List.mem_of_getElem? hc0)
+        subst this; simp [Cell.count] at hcount
+
 end PS.CD
